@@ -44,6 +44,8 @@ def run(res, programs, tier):
             # R03.6 (= R10.4): the half test of round_fract is conservative
             from . import polarity
             polarity.rule(res, P, P.name, "R03.6")
+            from . import halftest
+            halftest.rule(res, P, P.name, "R03.8")
 
 
 def _closure_negates_arg(P, cl):
